@@ -70,6 +70,7 @@ package codec
 
 //@ func Buffer.ReadLine
 //@   props C08 C12
+//@   unreachable return 3
 //@   modifies b.r
 //@   requires bwf(b)
 //@   ensures[wf] bwf(b) && b.r >= old(b.r)
@@ -83,6 +84,7 @@ package codec
 
 //@ func checkArgs
 //@   props C17
+//@   unreachable return 1
 //@   flags pure
 //@   ensures[arity] result == checked(command, n)
 
